@@ -79,9 +79,15 @@ class ProviderModel:
     def client(self, name: str, inline_helpers=True, raises_of=None, inline_names=None) -> SymClient:
         f = self.method(name)
         names = set(inline_names) if inline_names is not None else (set(HELPERS) if inline_helpers else set())
+        never = {'run', 'start', 'kill', 'stop', 'send', 'receive', '__init__', 'join', 'is_alive'} | set(PRODUCERS)
 
         def inline(fi):
-            return fi.cls is not None and fi.cls.key == self.cls.key and fi.name in names
+            if fi.cls is None or fi.cls.key != self.cls.key:
+                return False
+            if fi.name in names:
+                return True
+            # helpers the maintainers may introduce later are always looked into
+            return fi.name not in never and fi.name not in HELPERS and fi.kind == 'method'
         return SymClient(self.repo, f, event_of=event_kind, inline=inline, hierarchy=self.hier,
                          raises_of=raises_of, store_event=store_event)
 
